@@ -1149,8 +1149,12 @@ def regenerate(ctx):
     gaps, summ = members_extract.regenerate(fw.REPO, fw.LEAN)
     ctx.extra["member_table"] = summ
     # the placement block of add() is C10's: its translator tells which form `__add` has in this tree
-    gaps_add = ["add/__add (py2lean_add): " + g for g in
-                py2lean_add.regenerate(fw.REPO, os.path.join(fw.LEAN, "NmlVerif", "Gen", "AddImpl.lean"))]
+    # C09 reads only the three shape constants (dupTest / warnFmt / bookKeeping), which the translator takes from
+    # `__add`, `__same_contents` and `__eq__`: gaps about those are C09's as well; gaps about the rest of `add` /
+    # `_get_members` are C10's own business (its check reports them) and do not make C09's placement shape doubtful
+    all_add = py2lean_add.regenerate(fw.REPO, os.path.join(fw.LEAN, "NmlVerif", "Gen", "AddImpl.lean"))
+    ctx.extra["py2lean_add_gaps_not_about_the_shape"] = len([g for g in all_add if not re.search(r"__add|__same_contents|__eq__", g)])
+    gaps_add = ["add/__add (py2lean_add): " + g for g in all_add if re.search(r"__add|__same_contents|__eq__", g)]
     gaps += gaps_add
     gaps2, summ2, sites = factory_extract.regenerate(fw.REPO, fw.LEAN)
     ctx.extra["factory_translation"] = summ2
